@@ -18,6 +18,7 @@ pub mod c17;
 pub mod c18;
 pub mod c19;
 pub mod c20;
+pub mod rehash;
 
 pub fn configs(prop: &str, tier: Tier) -> Option<Vec<Box<dyn Config>>> {
     Some(match prop {
